@@ -92,6 +92,12 @@ Section Bytes.
   Definition read_or_throw := read_loop true.
   Definition read_or_eof := read_loop false.
 
+  (* util::ReadFactory (util/read_compressed.cc): the first kMagicSize bytes of the input are fetched with
+     ReadOrEOF -- NOT with a single read -- and handed to DetectMagic, which decides gzip / bzip2 / xz / plain.
+     result: (header bytes the decision is taken on, rest of the input, oracle, status) *)
+  Definition magic_size : nat := 6.
+  Definition sniff_magic (o : list outcome) (src : list A) := read_or_eof o src magic_size.
+
   (* ------------------------------------------------------------------------------------------
      util::ErsatzPRead(fd, to, size, off)                                  util/file.cc:239-272
        while (size) { errno = 0; ret = pread(fd, to, size, off);
